@@ -664,6 +664,36 @@ spec fn ms_clear_post(a: MultiState, b: MultiState) -> bool {
                     ("C01-C03-suspend-clears-everything-then-redraws",
                      "exists|m: MultiState, t: Instant, r2: Result<(), IoError>| #[trigger] ms_clear_post(*old(self), m) && #[trigger] ms_draw_post(m, *final(self), true, None, t, r2)"),
                     ("C06-silent-when-hidden", "final(self).draw_target.hidden() == old(self).draw_target.hidden() && (old(self).draw_target.hidden() ==> final(self).draw_target.ops() == old(self).draw_target.ops())")]),
+        # ---- MultiProgress: the public methods that only take the lock and forward (were hash-pinned in pins_multi).
+        # R2: Arc<RwLock<MultiState>> is a plain field, read()/write().unwrap() are transparent.
+        Decl("src/multi.rs", "struct", "MultiProgress", rewrites=[Rw("R2", r"Arc<RwLock<MultiState>>", "MultiState")]),
+        Fn("src/multi.rs", "MultiProgress", "is_hidden", ret="r",
+           rewrites=[Rw("R2", r"self\.state\.read\(\)\.unwrap\(\)", "self.state")],
+           ensures=[("C06-is-hidden", "r == self.state.draw_target.hidden()", ["C06"])]),
+        Fn("src/multi.rs", "MultiProgress", "set_alignment", sig_rewrites=[K.SELF_MUT],
+           rewrites=[Rw("R2", r"self\.state\.write\(\)\.unwrap\(\)", "self.state")],
+           ensures=[("C02-alignment-set", "final(self).state.alignment == alignment"),
+                    ("C02-C03-nothing-else-changes",
+                     "final(self).state.ordering@ == old(self).state.ordering@ && final(self).state.members@ == old(self).state.members@ && final(self).state.orphan_lines@ == old(self).state.orphan_lines@ "
+                     "&& final(self).state.draw_target == old(self).state.draw_target && final(self).state.zombie_lines_count == old(self).state.zombie_lines_count && final(self).state.free_set@ == old(self).state.free_set@")]),
+        Fn("src/multi.rs", "MultiProgress", "println", ret="r", sig_rewrites=[K.SELF_MUT, K.IO_RESULT, Rw("R15", r"<I: AsRef<str>>", ""), Rw("R15", r"msg: I", "msg: &str")],
+           rewrites=[Rw("R2", r"let mut state = self\.state\.write\(\)\.unwrap\(\);", "let state = &mut self.state;")],
+           proofs=[(r"state\.println\(msg, Instant::now\(\)\)", "at", """{ let __now = Instant::now(); proof { assert(time_ok(__now)); } state.println(msg, __now) }""")],
+           requires=[("wf", "old(self).state.wf()"), ("target-wf", "old(self).state.draw_target.wf()"), ("own-target", "!(old(self).state.draw_target.kind is Multi)"),
+                     ("nonempty-text", "msg@.len() > 0 ==> text_lines_of(msg@).len() > 0"),
+                     ("sizes", "forall|w: nat, e: Option<Vec<LineType>>| 1 <= w <= 65535 && (e matches Some(v) ==> small(v@)) ==> #[trigger] ms_small(old(self).state, e, w)")],
+           ensures=[("wf", "final(self).state.wf()"),
+                    ("C03-C18-println", "exists|v: Vec<LineType>, now: Instant| v@ == (if msg@.len() == 0 { seq![LineType::Empty] } else { text_lines_of(msg@) }) && time_ok(now) "
+                                        "&& #[trigger] ms_draw_post(old(self).state, final(self).state, true, Some(v), now, r)")]),
+        Fn("src/multi.rs", "MultiProgress", "clear", ret="r", sig_rewrites=[K.SELF_MUT, K.IO_RESULT], also=["C03"],
+           rewrites=[Rw("R2", r"self\.state\.write\(\)\.unwrap\(\)", "self.state")],
+           requires=[("wf", "old(self).state.wf()"), ("target-wf", "old(self).state.draw_target.wf()"), ("own-target", "!(old(self).state.draw_target.kind is Multi)"),
+                     ("sizes", "old(self).state.zombie_lines_count.0 <= 0x0FFF_FFFF && llc_of(old(self).state.draw_target) <= 0x0FFF_FFFF")],
+           ensures=[("wf", "final(self).state.wf() && final(self).state.ordering@ == old(self).state.ordering@ && final(self).state.members@ == old(self).state.members@ && final(self).state.orphan_lines@ == old(self).state.orphan_lines@ && final(self).state.alignment == old(self).state.alignment"),
+                    ("target-wf", "final(self).state.draw_target.wf() && final(self).state.draw_target.same_kind(old(self).state.draw_target)"),
+                    ("C06-silent-when-hidden", "old(self).state.draw_target.hidden() ==> final(self).state.draw_target.ops() == old(self).state.draw_target.ops()"),
+                    ("C02-clear-wipes-zombies-too", "old(self).state.draw_target.own() is Some ==> final(self).state.zombie_lines_count.0 == 0"),
+                    ("clear-post", "ms_clear_post(old(self).state, final(self).state)")]),
     ],
 )
 
